@@ -459,6 +459,193 @@ mod container {
     }
 }
 
+/// Drivers and conversions: a constant written as an absent part (`from_re`) and the same constant
+/// carrying explicit zero parts must give identical driver results and identical conversions.
+mod drivers {
+    use super::*;
+    use nalgebra::allocator::Allocator;
+    use nalgebra::{DefaultAllocator, Dim, OVector, U1};
+    use num_dual::{gradient, hessian, jacobian, partial_hessian, Dual2Vec, DualNum, DualVec, HyperDualVec};
+
+    fn vecd<D: Dim>(d: D, xs: &[f64]) -> OVector<f64, D>
+    where
+        DefaultAllocator: Allocator<D>,
+    {
+        OVector::from_iterator_generic(d, U1, xs.iter().copied())
+    }
+
+    pub fn run<M: Dim, N: Dim>(name: &str, m: M, n: N, ctx: &Ctx, shard: usize, nshards: usize, sidx: u64) -> Acc
+    where
+        DefaultAllocator: Allocator<M> + Allocator<N> + Allocator<M, N> + Allocator<U1, N> + Allocator<U1, M> + Allocator<N, N> + Allocator<M, M> + Allocator<N, M>,
+    {
+        let mut acc = Acc::new();
+        let (mm, nn) = (m.value(), n.value());
+        for round in 0..ctx.n(30, 20000) {
+            if round % nshards as u64 != shard as u64 {
+                continue;
+            }
+            let mut rng = Rng::stream(ctx.seed, 7900 + sidx, round);
+            let xs: Vec<f64> = (0..nn).map(|_| rng.range(0.3, 1.7)).collect();
+            let ys: Vec<f64> = (0..mm).map(|_| rng.range(0.3, 1.7)).collect();
+            let cs: Vec<f64> = (0..mm.max(1)).map(|_| rng.range(-2.0, 2.0)).collect();
+            // ---- jacobian: M outputs of N variables; kind 0 = constant, 1 = product, 2 = sine
+            if nn >= 1 && mm >= 1 {
+                let kinds: Vec<usize> = (0..mm).map(|_| rng.below(3)).collect();
+                let idx: Vec<(usize, usize)> = (0..mm).map(|_| (rng.below(nn), rng.below(nn))).collect();
+                let nconst = kinds.iter().filter(|k| **k == 0).count();
+                let run = |explicit: bool| {
+                    jacobian(
+                        |x: OVector<DualVec<f64, f64, N>, N>| {
+                            OVector::<DualVec<f64, f64, N>, M>::from_iterator_generic(
+                                m,
+                                U1,
+                                (0..mm).map(|j| match kinds[j] {
+                                    0 => {
+                                        if explicit {
+                                            x[0].clone() * 0.0 + cs[j]
+                                        } else {
+                                            DualVec::from_re(cs[j])
+                                        }
+                                    }
+                                    1 => x[idx[j].0].clone() * x[idx[j].1].clone(),
+                                    _ => x[idx[j].0].sin() + cs[j],
+                                }),
+                            )
+                        },
+                        vecd(n, &xs),
+                    )
+                };
+                acc.observe(&format!("driver|jacobian|{}|{}-constant-outputs", name, nconst.min(3)), nconst > 0);
+                match (guarded(|| run(false)), guarded(|| run(true))) {
+                    (Ok(a), Ok(b)) => {
+                        if a.0 != b.0 || a.1 != b.1 {
+                            acc.violate(format!("driver:jacobian:{}", name), format!("jacobian ({}) with constant outputs written as absent parts gives {:?}, with explicit zero parts {:?} (output kinds {:?})", name, a.1.iter().collect::<Vec<_>>(), b.1.iter().collect::<Vec<_>>(), kinds), json!({"dims": name, "x": xs, "kinds": kinds}));
+                        }
+                    }
+                    (a, b) => acc.violate(format!("driver:jacobian:{}:panic", name), format!("jacobian panicked: {:?} / {:?}", a.err(), b.err()), json!({"dims": name})),
+                }
+            }
+            // ---- gradient and hessian of N variables: constant, linear, quadratic
+            if nn >= 1 {
+                let kind = rng.below(3);
+                let (a, b2) = (rng.below(nn), rng.below(nn));
+                let g = |explicit: bool| {
+                    gradient(
+                        |x: OVector<DualVec<f64, f64, N>, N>| match kind {
+                            0 => {
+                                if explicit {
+                                    x[0].clone() * 0.0 + cs[0]
+                                } else {
+                                    DualVec::from_re(cs[0])
+                                }
+                            }
+                            1 => x[a].clone() * 3.0 + if explicit { x[0].clone() * 0.0 + cs[0] } else { DualVec::from_re(cs[0]) },
+                            _ => x[a].clone() * x[b2].clone(),
+                        },
+                        vecd(n, &xs),
+                    )
+                };
+                acc.observe(&format!("driver|gradient|{}|{}", name, ["constant", "linear", "quadratic"][kind]), kind < 2);
+                match (guarded(|| g(false)), guarded(|| g(true))) {
+                    (Ok(p), Ok(q)) => {
+                        if p != q {
+                            acc.violate(format!("driver:gradient:{}", name), format!("gradient ({}) differs between absent and explicit-zero constants: {:?} vs {:?}", name, p.1.iter().collect::<Vec<_>>(), q.1.iter().collect::<Vec<_>>()), json!({"dims": name, "x": xs, "kind": kind}));
+                        }
+                    }
+                    (p, q) => acc.violate(format!("driver:gradient:{}:panic", name), format!("gradient panicked: {:?} / {:?}", p.err(), q.err()), json!({"dims": name})),
+                }
+                let h = |explicit: bool| {
+                    hessian(
+                        |x: OVector<Dual2Vec<f64, f64, N>, N>| {
+                            let zero = if explicit { (x[0].clone() * x[0].clone()) * 0.0 } else { Dual2Vec::from_re(0.0) };
+                            match kind {
+                                0 => zero + cs[0],
+                                1 => x[a].clone() * 3.0 - x[b2].clone() + zero,
+                                _ => x[a].clone() * x[b2].clone() + zero,
+                            }
+                        },
+                        vecd(n, &xs),
+                    )
+                };
+                acc.observe(&format!("driver|hessian|{}|{}", name, ["constant", "linear", "quadratic"][kind]), kind < 2);
+                match (guarded(|| h(false)), guarded(|| h(true))) {
+                    (Ok(p), Ok(q)) => {
+                        if p != q {
+                            acc.violate(format!("driver:hessian:{}", name), format!("hessian ({}) differs between absent and explicit-zero parts: {:?} / {:?} vs {:?} / {:?}", name, p.1.iter().collect::<Vec<_>>(), p.2.iter().collect::<Vec<_>>(), q.1.iter().collect::<Vec<_>>(), q.2.iter().collect::<Vec<_>>()), json!({"dims": name, "x": xs, "kind": kind}));
+                        }
+                    }
+                    (p, q) => acc.violate(format!("driver:hessian:{}:panic", name), format!("hessian panicked: {:?} / {:?}", p.err(), q.err()), json!({"dims": name})),
+                }
+            }
+            // ---- partial_hessian of (M, N) variables: constant, x only, y only, mixed
+            if nn >= 1 && mm >= 1 {
+                let kind = rng.below(4);
+                let (a, b2) = (rng.below(mm), rng.below(nn));
+                let ph = |explicit: bool| {
+                    partial_hessian(
+                        |x: OVector<HyperDualVec<f64, f64, M, N>, M>, y: OVector<HyperDualVec<f64, f64, M, N>, N>| {
+                            let zero = if explicit { (x[0].clone() * y[0].clone()) * 0.0 } else { HyperDualVec::from_re(0.0) };
+                            match kind {
+                                0 => zero + cs[0],
+                                1 => x[a].clone() * x[a].clone() + zero,
+                                2 => y[b2].sin() + zero,
+                                _ => x[a].clone() * y[b2].clone() + zero,
+                            }
+                        },
+                        vecd(m, &ys),
+                        vecd(n, &xs),
+                    )
+                };
+                acc.observe(&format!("driver|partial_hessian|{}|{}", name, ["constant", "x-only", "y-only", "mixed"][kind]), kind < 3);
+                match (guarded(|| ph(false)), guarded(|| ph(true))) {
+                    (Ok(p), Ok(q)) => {
+                        if p != q {
+                            acc.violate(format!("driver:partial_hessian:{}", name), format!("partial_hessian ({}) differs between absent and explicit-zero parts (kind {})", name, kind), json!({"dims": name, "x": ys, "y": xs, "kind": kind}));
+                        }
+                    }
+                    (p, q) => acc.violate(format!("driver:partial_hessian:{}:panic", name), format!("partial_hessian panicked: {:?} / {:?}", p.err(), q.err()), json!({"dims": name})),
+                }
+            }
+        }
+        acc
+    }
+
+    /// narrowing / widening conversions see an absent part exactly like an all-zero one
+    pub fn conversions(ctx: &Ctx) -> Acc {
+        use nalgebra::{Const, SVector};
+        use num_dual::{Derivative, DualSVec32, DualSVec64};
+        use simba::scalar::{SubsetOf, SupersetOf};
+        let mut acc = Acc::new();
+        let mut rng = Rng::stream(ctx.seed, 7999, 0);
+        for _ in 0..ctx.n(200, 50000) {
+            let re = (rng.range(-3.0, 3.0) as f32) as f64;
+            let absent: DualSVec64<2> = DualVec::from_re(re);
+            let zeros: DualSVec64<2> = DualVec::new(re, Derivative::some(SVector::<f64, 2>::zeros()));
+            acc.observe("conversion|DualSVec64<2>->DualSVec32<2>|absent-vs-zeros", true);
+            let a = (<DualSVec32<2> as SubsetOf<DualSVec64<2>>>::is_in_subset(&absent), <DualSVec32<2> as SubsetOf<DualSVec64<2>>>::is_in_subset(&zeros));
+            let b: (Option<DualSVec32<2>>, Option<DualSVec32<2>>) = (absent.to_subset(), zeros.to_subset());
+            let eq = |p: &Option<DualSVec32<2>>, q: &Option<DualSVec32<2>>| match (p, q) {
+                (Some(p), Some(q)) => p.re == q.re && p.eps.clone().unwrap_generic(Const::<2>, U1) == q.eps.clone().unwrap_generic(Const::<2>, U1),
+                (None, None) => true,
+                _ => false,
+            };
+            if a.0 != a.1 || !eq(&b.0, &b.1) {
+                acc.violate("conversion:absent-vs-zeros".into(), format!("is_in_subset / to_subset of a DualSVec64<2> constant: absent part -> ({}, {:?}), explicit zeros -> ({}, {:?})", a.0, b.0.map(|v| v.re), a.1, b.1.map(|v| v.re)), json!({"re": re}));
+            }
+            // containers go through is_in_subset element by element
+            acc.observe("conversion|SVector<DualSVec64<2>,2>->SVector<DualSVec32<2>,2>|absent-vs-zeros", true);
+            let va = SVector::<DualSVec64<2>, 2>::from([absent.clone(), zeros.clone()]);
+            let vb = SVector::<DualSVec64<2>, 2>::from([zeros.clone(), zeros.clone()]);
+            let ca: Option<SVector<DualSVec32<2>, 2>> = nalgebra::try_convert(va);
+            let cb: Option<SVector<DualSVec32<2>, 2>> = nalgebra::try_convert(vb);
+            if ca.is_some() != cb.is_some() {
+                acc.violate("conversion:container:absent-vs-zeros".into(), format!("nalgebra::try_convert of a vector of constants: with an absent part {:?}, with explicit zeros {:?}", ca.is_some(), cb.is_some()), json!({"re": re}));
+            }
+        }
+        acc
+    }
+}
+
 fn main() {
     let ctx = Ctx::from_args("C07");
     let acc = ctx.parallel(|shard, nshards| {
@@ -502,7 +689,16 @@ fn main() {
             cont!("Dyn(3)xDyn(2)", Dyn(3), Dyn(2));
             cont!("Dyn(2)xDyn(0)", Dyn(2), Dyn(0));
             let _ = si;
+            {
+                use nalgebra::{Const, Dyn};
+                acc.merge(drivers::run("M3xN2", Const::<3>, Const::<2>, &ctx, shard, nshards, 1));
+                acc.merge(drivers::run("M2xN3", Const::<2>, Const::<3>, &ctx, shard, nshards, 2));
+                acc.merge(drivers::run("M1xN1", Const::<1>, Const::<1>, &ctx, shard, nshards, 3));
+                acc.merge(drivers::run("MDyn(4)xNDyn(3)", Dyn(4), Dyn(3), &ctx, shard, nshards, 4));
+                acc.merge(drivers::run("MDyn(2)xNDyn(5)", Dyn(2), Dyn(5), &ctx, shard, nshards, 5));
+            }
             if shard == 0 {
+                acc.merge(drivers::conversions(&ctx));
                 acc.merge(container::scalar_conveniences::<f64>(&ctx));
                 acc.merge(container::scalar_conveniences::<Dual64>(&ctx));
             }
@@ -521,7 +717,7 @@ fn main() {
     ctx.finish(
         acc,
         "one evaluation = one run of a program/history under one representation of the zero parts, compared node by node with the all-present run; class = (program | history, type, number k of zero optional parts); non-trivial = k >= 1 and at least one part absent. All 2^k representations are run for k <= 8 (256 random ones beyond). Histories start from a constant accumulator and apply up to 30 compound assignments (+= -= *= /= with dual and scalar right-hand sides), and are also compared with the same history written with the non-assigning operators.",
-        &["finite operands only (0*x = 0 exactly), -0.0 == +0.0; cases whose all-present run is non-finite are skipped and counted", "conversions with absent parts are monitored under C13, drivers returning constants under C05"],
+        &["finite operands only (0*x = 0 exactly), -0.0 == +0.0; cases whose all-present run is non-finite are skipped and counted", "the conversion monitor of C13 and the driver monitor of C05 also build constants with absent parts; the checks here only compare the two representations with each other"],
         extra,
         &required,
     );
